@@ -51,6 +51,7 @@ type Rat struct {
 	Num     *Term    // Int sort
 	Den     *big.Int // > 0
 	Inexact bool     // the IEEE value may differ from Num/Den (rounding could not be excluded)
+	Scaled  *Term    // if set: this float is, by definition, one whose product with 1e10 converts to this integer
 }
 
 type mapEntry struct {
